@@ -22,7 +22,7 @@ def plan(tier, seed):
     reg = [dict(kind='register', entries=e, maxlen=4) for e in ((0, 1, 2) if tier == 'quick' else (0, 1, 2, 3))]
     if tier == 'quick':
         return reg + [dict(entries=e, libs=l, maxlen=4) for e, l in ((1, 1), (2, 1), (3, 1), (1, 2), (2, 2))]
-    return reg + [dict(entries=e, libs=l, maxlen=5) for e in (1, 2, 3, 4) for l in (1, 2)]
+    return reg + [dict(entries=e, libs=l, maxlen=5) for e in (1, 2, 3, 4) for l in (1, 2) if not (e == 4 and l == 2)]      # 4 entries x 2 libraries did not finish in 25 min
 
 
 class FakeCommand(object):
@@ -229,7 +229,7 @@ def describe(tier):
         'level': 'model_checking',
         'functions': ['mpilot/program.py: Program.__init__ (library filter, duplicate detection, command_library)', 'mpilot/commands.py: Command.get_commands, CommandInfo, CommandMeta.__new__ (registration step from an arbitrary registry pre-state)'],
         'bounds': {'quick': '<=3 registry entries with 1 library, <=2 entries with 2 libraries, module/command/library names = symbolic strings of length 1..4 over [a-c.]',
-                   'thorough': '<=4 entries, names of length 1..6'},
+                   'thorough': '<=4 entries with 1 library, <=3 with 2 libraries, names of length 1..5; registration step from <=3 earlier entries'},
         'outside': ['the import machinery itself (Program.load_commands is stubbed: the registry pre-state is arbitrary instead)', 'names longer than the bound / other alphabets',
                     'which of two definitions with the same (module, name) wins (the step check only demands ONE entry per key, all other entries untouched; that is assumed as the representation invariant of the registry by the Program.__init__ check)'],
         'assumptions': ['S-load: load_commands does nothing; the registry pre-state is an arbitrary list of (module, command) entries, i.e. anything an earlier history could have produced',
